@@ -422,6 +422,8 @@ func main() {
 		cmdInject(os.Args[2:])
 	case "funcs":
 		cmdFuncs(os.Args[2:])
+	case "embed":
+		cmdEmbed(os.Args[2:])
 	default:
 		die("unknown subcommand %s", os.Args[1])
 	}
